@@ -7,8 +7,11 @@
   lowered instructions, and leaves the rest of the machine state alone (`data_block`).  Every round body of the three RV64I programs consists of such instructions only
   (`TJ.Gen.Asm` files; checked per program by `bodyData` below on the regenerated instruction lists).
 
-  Still assumed (not lifted): loads and stores (64-bit addresses against the idealised word memory), `ld`/`sd` of the callee-saved registers, `addi` on `sp`, and the round
-  counter (`dec_sext`, `sext_eq_zero` of TJ.Asm.RV64 are the per-instruction facts; exact below 2^31 rounds).
+  The round counter is lifted separately (`counter_lift`): for a count 1 ≤ r < 2^31 passed sign-extended, the 64-bit register after k ≤ r decrements is the sign extension of the
+  32-bit one and is zero exactly when k = r, so the loop branch takes the same direction on both machines in every round.
+
+  Still assumed (not lifted): loads and stores (64-bit addresses against the idealised word memory), `ld`/`sd` of the callee-saved registers, `addi` on `sp`, and the
+  composition of these pieces into one simulation of the whole program.
 -/
 import TJ.Asm.RiscV
 import TJ.Asm.RV64
@@ -115,5 +118,66 @@ theorem data_block_low (blk : List I) (blk' : List Instr) (d : D) (ha : blk.all 
     low (blk.foldl exec64 (sextRegs d.r) x) = (blk'.foldl execD d).r.get x := by
   rw [(data_block blk blk' d ha hl).1]
   exact low_sext _
+
+/-! ### the round counter -/
+
+/-- 64-bit `addi a1, a1, -1` applied `k` times -/
+def dec64 : Nat → BitVec 64 → BitVec 64
+  | 0, x => x
+  | k + 1, x => dec64 k (x - 1)
+
+def dec32 : Nat → BitVec 32 → BitVec 32
+  | 0, x => x
+  | k + 1, x => dec32 k (x - 1)
+
+theorem dec32_ofNat (k : Nat) : ∀ (r : Nat), k ≤ r → r < 2147483648 → dec32 k (BitVec.ofNat 32 r) = BitVec.ofNat 32 (r - k) := by
+  induction k with
+  | zero => intro r _ _; rfl
+  | succ k ih =>
+    intro r hk hr
+    have h1 : BitVec.ofNat 32 r - 1 = BitVec.ofNat 32 (r - 1) := by
+      apply BitVec.eq_of_toNat_eq
+      have e1 : (1 : BitVec 32).toNat = 1 := by decide
+      simp only [BitVec.toNat_sub, BitVec.toNat_ofNat, e1]
+      omega
+    simp only [dec32, h1]
+    rw [ih (r - 1) (by omega) (by omega)]
+    congr 1; omega
+
+/-- **the round counter**: for a count `1 ≤ r < 2^31` passed sign-extended (as the psABI does), the 64-bit register after `k ≤ r` decrements is the sign extension of the 32-bit
+    counter after `k` decrements, so every `bne a1, zero` takes the same direction on both machines and both leave the loop after exactly `r` rounds -/
+theorem counter_lift (r : Nat) (hr : r < 2147483648) : ∀ (k : Nat), k ≤ r →
+    dec64 k (sext (BitVec.ofNat 32 r)) = sext (dec32 k (BitVec.ofNat 32 r)) ∧ (dec64 k (sext (BitVec.ofNat 32 r)) = 0 ↔ k = r) := by
+  have key : ∀ (k : Nat) (r : Nat), r < 2147483648 → k ≤ r → dec64 k (sext (BitVec.ofNat 32 r)) = sext (dec32 k (BitVec.ofNat 32 r)) := by
+    intro k
+    induction k with
+    | zero => intro r _ _; rfl
+    | succ k ih =>
+      intro r hr hk
+      have hlt : BitVec.ofNat 32 r < 0x80000000#32 := by
+        rw [BitVec.lt_def]; simp only [BitVec.toNat_ofNat]; omega
+      have hne : BitVec.ofNat 32 r ≠ 0 := by
+        intro h
+        have := congrArg BitVec.toNat h
+        have e0 : (0 : BitVec 32).toNat = 0 := by decide
+        simp only [BitVec.toNat_ofNat, e0] at this; omega
+      have h1 : BitVec.ofNat 32 r - 1 = BitVec.ofNat 32 (r - 1) := by
+        apply BitVec.eq_of_toNat_eq
+        have e1 : (1 : BitVec 32).toNat = 1 := by decide
+        simp only [BitVec.toNat_sub, BitVec.toNat_ofNat, e1]
+        omega
+      simp only [dec64, dec32]
+      rw [dec_sext _ hlt hne, h1]
+      exact ih (r - 1) (by omega) (by omega)
+  intro k hk
+  refine ⟨key k r hr hk, ?_⟩
+  rw [key k r hr hk, sext_eq_zero, dec32_ofNat k r hk hr]
+  constructor
+  · intro h
+    have := congrArg BitVec.toNat h
+    have e0 : (0 : BitVec 32).toNat = 0 := by decide
+    simp only [BitVec.toNat_ofNat, e0] at this
+    omega
+  · intro h; subst h; simp
 
 end TJ.Asm.RV64
